@@ -83,6 +83,11 @@ CHECKS = {
    text="Workload: the repository's own test and docs programs, perturbed copies of them (literals, branch order, =>/, swaps), and programs from a typed generator aimed at stack/locals bookkeeping (partially failing patterns mid-chain, bindings in branches that fall through, multi-step consequences, ~ at depth, spreads, closures, $, tail calls from nested blocks, string holes). Compiled through the real compiler and run on the real worker; value and error-vs-value must equal the reference evaluator's.",
    design="§3 C02",
    note="Programs using processes, %ref, context-inferred function literals or type tests on function types are outside the reference evaluator and are counted inconclusive, not decided."),
+ "C10": dict(
+   technique="runtime monitoring: differential oracle over real executions — each accepted program is executed through every packaging path on the real worker/environment and the real `quiv` binary, and the canonical outcomes compared",
+   text="Workload: repository corpus, generated sequential programs, process scenarios. Paths: as compiled, tree-shaken, serde_json round trip (plain and shaken), merged after 1-4 other programs (plain or shaken, sometimes a copy of itself). `quiv run -e` vs `quiv compile` + `quiv run` (and the printed value re-evaluated against the in-process value). Generated modules: `%lib` / `%lib.member` vs the module body evaluated in place.",
+   design="§3 C10",
+   note="The CLI family skips process and I/O programs; outcomes are compared after erasing function indices."),
  "C16": dict(
    technique="runtime monitoring: space monitor (executor peak counters + heap slot count) over tail-recursive shape templates executed at N and 50N",
    text="Tail-recursive shapes (self ^ in body / consequence / nested blocks / after bindings / after failed matches, named ^self through a passed function, ^~, per-iteration binaries, tuples, strings, and receive loops with int and binary messages) run at N and 50N on fresh profiled workers; peak frames, locals and operand stack must be identical and heap slots must not grow.",
